@@ -404,6 +404,14 @@ func check(c *runCfg) int {
 			fmt.Fprintln(os.Stderr, "symgo: replay failed:", err)
 		}
 	}
+	// C19: whole-library scan for writable package-level state (solver-free part of the check)
+	var scanInfo map[string]any
+	var scanViol []globalFinding
+	if c.prop == "C19" {
+		fnds, globals, nf, conc := scanGlobalState(l)
+		scanViol = fnds
+		scanInfo = map[string]any{"functions_scanned": nf, "package_level_variables_and_plain_reads": globals, "non_read_uses_outside_init": fnds, "go_send_select_instructions": conc}
+	}
 	// verdicts
 	exit := 0
 	nviol, nknown, nspur := 0, 0, 0
@@ -461,6 +469,13 @@ func check(c *runCfg) int {
 		} else if !hasKnownViolation(results, w.Harness) {
 			inconcl = append(inconcl, fmt.Sprintf("%s: witness model of a completed symbolic path does not complete natively (%s): engine and native execution diverge", w.Harness, w.Outcome))
 		}
+	}
+	for i, f := range scanViol {
+		path := filepath.Join(replayDir, fmt.Sprintf("global_state_%d.json", i))
+		writeJSON(path, f)
+		fmt.Printf("VIOLATION property=%s replay=%s\n  %s in %s: %s (%s)\n", c.prop, path, f.What, f.Func, f.Global, f.Pos)
+		nviol++
+		exit = 1
 	}
 	for _, s := range inconcl {
 		fmt.Printf("INCONCLUSIVE property=%s %s\n", c.prop, s)
@@ -523,6 +538,7 @@ func check(c *runCfg) int {
 		"bounds":                        meta.Bounds,
 		"outside_claim":                 meta.Outside,
 		"exhaustive":                    false,
+		"global_state_scan":             scanInfo,
 		"explanation":                   "paths = feasible symbolic paths explored (state merging folds many concrete paths into one); transitions = SSA instructions executed symbolically; traces_validated_against_impl = solver models replayed natively against the real build with go test -overlay",
 	}
 	ev := evidence{PropertyID: c.prop, Tier: c.tier, Seed: c.seed, Level: meta.Level, Coverage: cov, Assumptions: meta.Assumptions, WallS: round2(time.Since(t0).Seconds()), Violations: nviol}
